@@ -121,6 +121,12 @@ Save(fs, p, v) ==
        ELSE /\ tree' = [tree EXCEPT ![fs] = Put(t1, CreateLoc(fs, s), Doc(v, LenOf(v), FALSE))]
             /\ out' = OK(0) /\ GSave(fs, p, v)
 
+\* pg.save of a value that cannot be serialised (to_json_str raises): the call fails and NOTHING changes - no file is
+\* created or emptied, so what was saved before is still what a later load returns
+SaveBad(fs, p) ==
+  /\ fs \in {"std", "mem"} /\ NoWriterOn(fs, p) /\ (fs = "mem" => p \in MemPaths)
+  /\ act' = <<"SaveBad", fs, p>> /\ out' = Fail("unserializable") /\ UNCHANGED <<tree, writer, ghost>>
+
 \* pg.load(path)
 Load(fs, p) ==
   LET loc == Loc(fs, Full(p))  t == tree[fs] IN
@@ -184,6 +190,10 @@ Add(rec) ==
   /\ LET l == WriterLoc  n == tree[writer.fs][l] IN
      tree' = [tree EXCEPT ![writer.fs] = Put(@, l, LinesA(Append(n.recs, rec), n.stale \/ writer.clobber, n.v))]
   /\ GAdd(writer.fs, writer.p, rec)
+\* add() of a record the serializer rejects (or, for the text API, a record that is not a string): fails, nothing written
+AddBad ==
+  /\ writer # NoWriter
+  /\ act' = <<"AddBad">> /\ out' = Fail("unserializable") /\ UNCHANGED <<tree, writer, ghost>>
 CloseSeq ==
   /\ writer # NoWriter
   /\ act' = <<"CloseSeq">> /\ out' = OK(0) /\ writer' = NoWriter /\ UNCHANGED <<tree, ghost>>
@@ -212,9 +222,10 @@ Init == /\ tree = [fs \in FSKinds |-> <<>> :> Dir] /\ writer = NoWriter
         /\ act = <<"Init">> /\ out = OK(0)
 Next ==
   \/ \E fs \in FSKinds \ {"rec"} : \E p \in Pick(PathIds) :
-        (\E v \in Pick(Vals) : Save(fs, p, v)) \/ Load(fs, p) \/ Exists(fs, p) \/ Rm(fs, p) \/ MkdirAt(fs, p)
+        (\E v \in Pick(Vals) : Save(fs, p, v)) \/ SaveBad(fs, p) \/ Load(fs, p) \/ Exists(fs, p) \/ Rm(fs, p) \/ MkdirAt(fs, p)
   \/ \E fs \in FSKinds : \E p \in Pick(PathIds) : \E api \in Apis : (\E m \in {"w", "a"} : OpenSeq(fs, p, m, api)) \/ ReadSeq(fs, p, api)
   \/ \E r \in Pick(Vals) : Add(r)
+  \/ AddBad
   \/ CloseSeq
 Spec == Init /\ [][Next]_vars
 LevelBound == TLCGet("level") <= MaxLevel
